@@ -2,7 +2,7 @@
    Statements only; proofs in Proofs/YamlProofs.v, Proofs/RulesProofs.v, Proofs/GraphEquivProofs.v. *)
 From Coq Require Import Permutation.
 From ACV Require Import Base.Strs Model.Graph Model.PathGrammar Model.Dnf Model.Rules Model.Report Model.Engine Model.Yaml Model.SharedRef Model.TemplatesRef.
-From ACV Require Import Model.ProfileParser Proofs.RulesProofs Proofs.YamlProofs Proofs.ParserProofs Proofs.ParserCongruence Extracted.SharedFacts Extracted.Templates.
+From ACV Require Import Model.ProfileParser Proofs.RulesProofs Proofs.YamlProofs Proofs.ParserProofs Proofs.ParserCongruence Model.YamlRespell Proofs.RespellProofs Extracted.SharedFacts Extracted.Templates.
 Local Open Scope list_scope.
 
 (* ties: mapping keys are looked up among the KEYS only and listed in document order; the prefix table is the
@@ -65,6 +65,17 @@ Proof. split; [exact ex_docs_related|]. split; [discriminate|]. exact (proj1 ex_
 Theorem C15_rewriting_reflexive : forall y, wf_keys y = true -> yrw y y.
 Proof. exact yrw_refl. Qed.
 
+(* Prefixes, on the whole tree: two profiles of the same shape whose compact IRIs are spelled differently - a prefix renamed
+   consistently, an alias bound to the same namespace used here and there, a differently written prefix table - but expand
+   alike (the executable test YamlRespell.respell_doc_b, which the harness applies to the profiles it respells) get the
+   same verdict on every graph *)
+Theorem C15_prefix_respelling : forall defaults doc doc' g, respell_doc_b defaults doc doc' = true ->
+  verdict_keys defaults doc g = verdict_keys defaults doc' g.
+Proof. exact respell_same_verdict. Qed.
+Theorem C15_respelled_bodies_parse_alike : forall ctx ctx' fp fr y y', respell_b ctx ctx' fr PExpr y y' = true ->
+  parse_expr ctx fp y = parse_expr ctx' fp y'.
+Proof. exact respell_parse_expr. Qed.
+
 Theorem C15_level_lists : forall g p p' l r,
   p_name p = p_name p' -> NoDup (map v_name (p_defs p)) -> Permutation (p_defs p) (p_defs p') -> Permutation (p_listed p) (p_listed p') ->
   (In r (level_results g p l) <-> In r (level_results g p' l)).
@@ -100,5 +111,7 @@ Print Assumptions C15_parser_property_order.
 Print Assumptions C15_parser_congruence.
 Print Assumptions C15_rewriting_at_any_depth.
 Print Assumptions C15_rewriting_reflexive.
+Print Assumptions C15_prefix_respelling.
+Print Assumptions C15_respelled_bodies_parse_alike.
 Print Assumptions C15_prefix_rename.
 Print Assumptions C15_prefix_alias.
